@@ -98,7 +98,11 @@ func byzantineAnswer(p *IdP, ans map[string]any, ch *chainRec, login bool) {
 		if ok == nil {
 			ok = foreign
 		}
-		forged = SignJWT(ok, map[string]any{"kid": key.Kid}, claims)
+		if p.w.valRng.Bool() {
+			forged = SignJWT(ok, nil, claims) // with that key's own kid
+		} else {
+			forged = SignJWT(ok, map[string]any{"kid": key.Kid}, claims) // under our kid
+		}
 	case "wrong-idp-key":
 		// a key of another provider of the same deployment
 		forged = SignJWT(penv.ecKeys[(p.Cur+3)%len(penv.ecKeys)], map[string]any{"kid": key.Kid}, claims)
